@@ -47,8 +47,11 @@ Walk(steps, k, tl, cur) ==
                   THEN Walk(steps, k + 1, tl, cur) ELSE k
          ELSE IF IsCtl(st.c) THEN
              \* one timeline step per refresh; whatever ends the batch (end of list, warning, exception) adds nothing
+             \* (update_node_attrs is ONE user action - one group of attribute updates whatever the number of nodes:
+             \*  "exactly one step however many primitive edits it contains")
              LET x == ExtendAll(tl, cur, st.subs, 1)
-             IN IF ObsEq(x[1][x[2]], o) THEN Walk(steps, k + 1, x[1], x[2]) ELSE k
+             IN IF ObsEq(x[1][x[2]], o) /\ (st.c[1] = KCSetAttrs => Len(st.subs) <= 1)
+                THEN Walk(steps, k + 1, x[1], x[2]) ELSE k
          ELSE IF st.ok
              THEN LET t2 == Extend(tl, cur, o) IN Walk(steps, k + 1, t2, Len(t2))
              ELSE IF ObsEq(tl[cur], o) THEN Walk(steps, k + 1, tl, cur) ELSE k
